@@ -35,8 +35,10 @@ ApplyEnc(t, e) == CASE e \in {"ekern", "aekern"} -> t
                     [] e \in {"kern", "akern"} -> Plain(t)
                     [] e = "bekern" -> BasicExt(t)
                     [] e = "bkern" -> BasicPlain(t)
-CellView(n, o) ==
-  LET c == n.cell  ht == TypeOf(n)  cat == CatOf(ht, c.k)  ck == ClefKindAt(n)
+\* ck: the clef kind the cell is rendered under (the clef in force for the node - or another one, when a tokenizer is handed
+\* a clef of the caller's choice)
+CellViewCk(n, o, ck) ==
+  LET c == n.cell  ht == TypeOf(n)  cat == CatOf(ht, c.k)
       agn == o.enc \in Agnostics
       isNote == IsNoteObject(ht, c.k)  isChord == IsChordObject(ht, c.k)
   IN
@@ -48,7 +50,7 @@ CellView(n, o) ==
   ELSE IF isNote THEN
          (IF agn /\ NeedsClef(c.n, o.cats) /\ ck = "NONE" THEN [ok |-> FALSE, t |-> <<>>]
           ELSE LET x == ApplyEnc(IF agn THEN SingleAgnExt(c.n, o.cats, ck) ELSE SingleExt(c.n, o.cats), o.enc)
-               IN [ok |-> TRUE, t |-> IF x = <<>> THEN Placeholder(cat) ELSE x])
+               IN [ok |-> TRUE, t |-> IF x = <<>> THEN Placeholder(cat) ELSE x, note |-> TRUE])
   ELSE IF isChord THEN
          (IF agn /\ ck = "NONE" /\ \E i \in 1..Len(c.ns) : NeedsClef(c.ns[i], o.cats) THEN [ok |-> FALSE, t |-> <<>>]
           ELSE LET x == ApplyEnc(IF agn THEN ChordAgnExt(c.ns, o.cats, ck) ELSE ChordExt(c.ns, o.cats), o.enc)
@@ -56,6 +58,8 @@ CellView(n, o) ==
   ELSE LET x == ApplyEnc(TokenText(c), o.enc) IN
        IF c.k = "err" THEN [ok |-> TRUE, t |-> IF x = <<>> THEN Placeholder(cat) ELSE x, err |-> TRUE]
        ELSE [ok |-> TRUE, t |-> IF x = <<>> THEN Placeholder(cat) ELSE x]
+
+CellView(n, o) == CellViewCk(n, o, ClefKindAt(n))
 
 VisibleNodes(s, o) == SelectSeq(stages[s], LAMBDA n : Visible(n, o))
 RowViews(s, o) == LET vis == VisibleNodes(s, o) IN [i \in 1..Len(vis) |-> CellView(vis[i], o)]
